@@ -410,7 +410,8 @@ class Selector(css_parser.util.Base2):
                 # S
                 context = new['context'][-1]
                 if context.startswith('pseudo-'):
-                    if seq and seq[-1].value not in '+-':
+                    if seq and (isinstance(seq[-1].value, css_parser.css.CSSComment) or
+                                seq[-1].value not in '+-'):  # (may be a comment)
                         # e.g. x:func(a + b)
                         append(seq, S, 'S', token=token)
                     return expected
